@@ -100,6 +100,11 @@ def sources(tier, seed, ctx):
             s['again'] = 1 + j % 5
         if j % 4 == 3 and s['r'] >= 1:
             s['rejected_fix'] = True
+    # planted instances under a time limit: a 13-gate XAIG chain over 6 inputs is drawn, its truth table is the model, the
+    # budget is 13 gates and the solver gets one second - a circuit exists by construction, so the call may return one, or
+    # give up with the time-out error, but must not report that there is no solution
+    for j in range(2 if tier == 'quick' else 6):
+        srcs.append({'k': 'planted', 'seed': rng.randrange(10**6), 'n': 6, 'r': 13, 'time_limit': 1})
     ctx['gen_note'] = f'{len(srcs)} synthesis calls (a third of them after another finder ran in the same process)'
     return srcs
 
@@ -109,7 +114,45 @@ def probes():
              'norm': False, 'fix': [{'g': 3, 'p1': -1, 'p2': 2, 't': ''}], 'forbid': [], 'time_limit': 0, 'probe': 'fix-gate-second-only'}]
 
 
+_BINOPS = {'AND': lambda a, b: a & b, 'OR': lambda a, b: a | b, 'XOR': lambda a, b: a ^ b, 'NAND': lambda a, b: 1 - (a & b),
+           'NOR': lambda a, b: 1 - (a | b), 'NXOR': lambda a, b: 1 - (a ^ b), 'GT': lambda a, b: a & (1 - b), 'LT': lambda a, b: (1 - a) & b,
+           'GEQ': lambda a, b: a | (1 - b), 'LEQ': lambda a, b: (1 - a) | b}
+
+
+def _planted(src):
+    """(source of an ordinary synthesis call, witness circuit record) for a planted instance."""
+    rng = random.Random(src['seed'])
+    n, r = src['n'], src['r']
+    gates = []
+    for k in range(r):
+        a = n + k - 1 if k else 0
+        b = rng.randrange(n + k)
+        while b == a:
+            b = rng.randrange(n + k)
+        gates.append((rng.choice(sorted(_BINOPS)), a, b))
+    tt = []
+    for row in range(2 ** n):
+        v = [(row >> (n - 1 - j)) & 1 for j in range(n)]
+        for t, a, b in gates:
+            v.append(_BINOPS[t](v[a], v[b]))
+        tt.append(v[-1])
+    names = [f'i{j}' for j in range(n)] + [f's{k}' for k in range(r)]
+    wit = {'g': {names[j]: {'t': 'INPUT', 'o': []} for j in range(n)}, 'ord': list(names), 'i': names[:n], 'o': [names[-1]], 'u': {}, 'b': {}}
+    for k, (t, a, b) in enumerate(gates):
+        wit['g'][names[n + k]] = {'t': t, 'o': [names[a], names[b]]}
+    call = {'k': 'synth', 'n': n, 'm': 1, 'mtt': [tt], 'r': r, 'basis': BASES['XAIG'], 'basis_kind': 'XAIG', 'spelled': 'str', 'norm': False,
+            'fix': [], 'forbid': [], 'time_limit': src['time_limit']}
+    return call, wit
+
+
 def record(src):
+    if src['k'] == 'planted':
+        call, wit = _planted(src)
+        case = _run(call)
+        case['witness'] = wit
+        case['time_limit'] = src['time_limit']
+        case['src'] = src
+        return case
     # an earlier finder of the same process (another model, typically with rows that are don't-care on every
     # output) must not influence this one
     if src.get('prelude'):
@@ -204,7 +247,7 @@ def post_judge(cases, tier, seed):
     program space of every configuration (Synth.tla) in ONE run. Returns extra verdicts."""
     groups = {}
     for c in cases:
-        if c['result'] != 'nosolution':
+        if c['result'] != 'nosolution' or 'witness' in c:     # a planted instance is decided by its witness (JudgeSynth)
             continue
         key = json.dumps([c['n'], c['r'], c['basis'], c['norm'], c['fix'], c['forbid']], sort_keys=True)
         groups.setdefault(key, []).append(c)
